@@ -230,6 +230,7 @@ def failureLocation (f : Failure) : Bytes :=
 
 /-- what the writer says for one event, as messages with their ORIGINAL (unescaped) values -/
 def msgsOf (s : St) : Ev → List Msg
+  | .testRun i n => if n > 1 then [.text (testRunOut i n)] else []
   | .testsStarted => []
   | .groupStarted t => [.suiteStarted t.group]
   | .testStarted t => .testStarted t.name :: (if !t.willRun then [.testIgnored t.name] else [])
@@ -264,6 +265,7 @@ theorem escape_failureLocation (f : Failure) :
 
 theorem step_renders (s : St) (e : Ev) : (step s e).2 = renderAll (msgsOf s e) := by
   cases e with
+  | testRun i n => by_cases h : n > 1 <;> simp [step, msgsOf, renderAll, Msg.render, testRunOut, h]
   | testsStarted => simp [step, msgsOf, renderAll]
   | groupStarted t =>
     simp [step, msgsOf, renderAll, Msg.render, groupStartedOut, message, attr, printEscaped_eq_ref, lit]
